@@ -14,7 +14,7 @@ VERIF = os.path.dirname(os.path.dirname(os.path.abspath(__file__)))
 REPO = os.environ.get("PEST_REPO", "/repo")
 DRIVER = os.path.join(VERIF, "pestfacts", "target", "debug", "pestfacts")
 SYNX = os.path.join(VERIF, "pestsyn", "target", "debug", "pestsyn")
-CACHE = os.path.join(VERIF, ".cache")
+CACHE = os.environ.get("PEST_CACHE") or os.path.join(VERIF, ".cache")
 
 # name -> cargo arguments.  Facts are per configuration because cfg changes the program.
 CONFIGS = {
@@ -35,10 +35,17 @@ _hash_cache = {}
 
 def repo_files(repo=None):
     repo = repo or REPO
-    out = subprocess.check_output(
-        ["git", "-C", repo, "ls-files", "-co", "--exclude-standard"], text=True)
+    if os.path.isdir(os.path.join(repo, ".git")) or os.path.isfile(os.path.join(repo, ".git")):
+        out = subprocess.check_output(
+            ["git", "-C", repo, "ls-files", "-co", "--exclude-standard"], text=True).splitlines()
+    else:
+        out = []
+        for d, ds, fs in os.walk(repo):
+            ds[:] = [x for x in ds if x not in ("target", ".git")]
+            for f in fs:
+                out.append(os.path.relpath(os.path.join(d, f), repo))
     files = []
-    for f in out.splitlines():
+    for f in out:
         if f.startswith("target/") or "/target/" in f:
             continue
         if f.endswith((".rs", ".pest", ".toml", ".lock")):
